@@ -2,8 +2,9 @@
 
    The threads are INTERPRETED from the generated statement skeletons (GenWait.v, terms of
    Ir.stmt): `run` executes a continuation (a flat list of statements) until the next yield
-   point.  Yield points are: function entry, every label, every s.mu.Lock(), every select
-   without a default clause.  Between two yield points a thread only touches its own locals
+   point.  Yield points are: function entry, every label, every s.mu.Lock(), every
+   `changed := X.watch()` (it takes the signal's mutex: one yield point before and one after
+   the watch), every select without a default clause.  Between two yield points a thread only touches its own locals
    (timer, c) or runs one critical section of s.mu, or evaluates a non-blocking select over
    the monotone closed-channel flags; that is the atomicity assumption of the model.
    The environment transitions that exist in the code (kcpInput, update, SetDeadline.., Close,
@@ -15,6 +16,14 @@
    an armed timer knows whether `now` has reached the deadline it was armed for (due) and
    whether that deadline is still the stored one (fresh); the core is (readable : saturating
    counter, bufptr non-empty : bool, room : bool); the accept backlog is a saturating counter.
+   Deadline-change broadcast (deadlineSignal): the code keeps one generation (a channel that is
+   closed and replaced by broadcast()) per deadline and every call remembers the generation it
+   watched.  The two are only ever compared for equality (`<-changed` is ready iff the watched
+   generation is no longer the current one), so the model keeps exactly that bit per call:
+   WSeen w = "watched the current generation of w", WMoved w = "the generation of w has moved
+   since" (broadcast turns every WSeen w into WMoved w).  This quotient of (shared counter,
+   per-call seen counter) is exact and keeps the state space finite although a setter may be
+   called any number of times.
    Timer semantics: `async = true` is the pre-Go-1.23 buffered timer channel (a fired value
    stays in the channel across Stop/Reset), `async = false` is the Go >= 1.23 semantics (Stop and
    Reset leave the channel empty).  Theorems are stated for both.
@@ -28,6 +37,7 @@ Import ListNotations.
 Inductive dlv := DNone | DFuture | DPast.
 Inductive tmr := TNil | TIdle | TRun (w : which) (due fresh : bool).
 Inductive chv := CEmpty | CCur | CStale.
+Inductive wst := WNone | WSeen (w : which) | WMoved (w : which).   (* the local `changed` *)
 
 Record shared := mkShared {
   rtok : bool; wtok : bool;                 (* chReadEvent / chWriteEvent hold a token *)
@@ -35,11 +45,10 @@ Record shared := mkShared {
   readable : nat; bufptr : bool; room : bool;
   rd : dlv; wd : dlv;
   accepts : nat; ldie : bool; lerr : bool; lrd : dlv;
-  ltok : bool;                              (* the listener's chDeadlineEvent holds a token *)
   o_die : bool; o_rerr : bool; o_werr : bool; o_ldie : bool; o_lerr : bool   (* sync.Once done *)
 }.
 
-Record loc := mkLoc { tm : tmr; ch : chv; cv : bool }.   (* timeout, content of timeout.C, c != nil *)
+Record loc := mkLoc { tm : tmr; ch : chv; cv : bool; wt : wst }.   (* timeout, content of timeout.C, c != nil, changed *)
 
 Inductive point := PEntry | PAt (id : nat) | PDone (r : ret) (legit : bool) | PFail (code : nat).
 
@@ -57,6 +66,7 @@ Scheme Equality for ret.
 Scheme Equality for dlv.
 Scheme Equality for tmr.
 Scheme Equality for chv.
+Scheme Equality for wst.
 Scheme Equality for shared.
 Scheme Equality for loc.
 Scheme Equality for point.
@@ -77,38 +87,37 @@ Inductive label :=
 | LTick (w : which)                          (* now reaches the stored deadline w *)
 | LTickStale (i : nat)                       (* now reaches the (replaced) deadline of thread i's timer *)
 | LFire (i : nat)                            (* the runtime delivers thread i's due timer *)
-| LStealR | LStealW | LStealAccept | LStealL (* another caller consumes the token / backlog entry *)
+| LStealR | LStealW | LStealAccept           (* another caller consumes the token / backlog entry *)
 | LTakeData | LTakeBuf | LTakeRoom           (* another caller consumes data / window *)
 | LRecall (i : nat).                         (* the finished call is followed by a new one *)
 
 Scheme Equality for label.
 
 (* ------------------------------------------------------------------ setters *)
-Definition set_rtok b s := mkShared b (wtok s) (die s) (rerr s) (werr s) (readable s) (bufptr s) (room s) (rd s) (wd s) (accepts s) (ldie s) (lerr s) (lrd s) (ltok s) (o_die s) (o_rerr s) (o_werr s) (o_ldie s) (o_lerr s).
-Definition set_wtok b s := mkShared (rtok s) b (die s) (rerr s) (werr s) (readable s) (bufptr s) (room s) (rd s) (wd s) (accepts s) (ldie s) (lerr s) (lrd s) (ltok s) (o_die s) (o_rerr s) (o_werr s) (o_ldie s) (o_lerr s).
-Definition set_die b s := mkShared (rtok s) (wtok s) b (rerr s) (werr s) (readable s) (bufptr s) (room s) (rd s) (wd s) (accepts s) (ldie s) (lerr s) (lrd s) (ltok s) (o_die s) (o_rerr s) (o_werr s) (o_ldie s) (o_lerr s).
-Definition set_rerr b s := mkShared (rtok s) (wtok s) (die s) b (werr s) (readable s) (bufptr s) (room s) (rd s) (wd s) (accepts s) (ldie s) (lerr s) (lrd s) (ltok s) (o_die s) (o_rerr s) (o_werr s) (o_ldie s) (o_lerr s).
-Definition set_werr b s := mkShared (rtok s) (wtok s) (die s) (rerr s) b (readable s) (bufptr s) (room s) (rd s) (wd s) (accepts s) (ldie s) (lerr s) (lrd s) (ltok s) (o_die s) (o_rerr s) (o_werr s) (o_ldie s) (o_lerr s).
-Definition set_readable n s := mkShared (rtok s) (wtok s) (die s) (rerr s) (werr s) n (bufptr s) (room s) (rd s) (wd s) (accepts s) (ldie s) (lerr s) (lrd s) (ltok s) (o_die s) (o_rerr s) (o_werr s) (o_ldie s) (o_lerr s).
-Definition set_bufptr b s := mkShared (rtok s) (wtok s) (die s) (rerr s) (werr s) (readable s) b (room s) (rd s) (wd s) (accepts s) (ldie s) (lerr s) (lrd s) (ltok s) (o_die s) (o_rerr s) (o_werr s) (o_ldie s) (o_lerr s).
-Definition set_room b s := mkShared (rtok s) (wtok s) (die s) (rerr s) (werr s) (readable s) (bufptr s) b (rd s) (wd s) (accepts s) (ldie s) (lerr s) (lrd s) (ltok s) (o_die s) (o_rerr s) (o_werr s) (o_ldie s) (o_lerr s).
-Definition set_rd v s := mkShared (rtok s) (wtok s) (die s) (rerr s) (werr s) (readable s) (bufptr s) (room s) v (wd s) (accepts s) (ldie s) (lerr s) (lrd s) (ltok s) (o_die s) (o_rerr s) (o_werr s) (o_ldie s) (o_lerr s).
-Definition set_wd v s := mkShared (rtok s) (wtok s) (die s) (rerr s) (werr s) (readable s) (bufptr s) (room s) (rd s) v (accepts s) (ldie s) (lerr s) (lrd s) (ltok s) (o_die s) (o_rerr s) (o_werr s) (o_ldie s) (o_lerr s).
-Definition set_accepts n s := mkShared (rtok s) (wtok s) (die s) (rerr s) (werr s) (readable s) (bufptr s) (room s) (rd s) (wd s) n (ldie s) (lerr s) (lrd s) (ltok s) (o_die s) (o_rerr s) (o_werr s) (o_ldie s) (o_lerr s).
-Definition set_ldie b s := mkShared (rtok s) (wtok s) (die s) (rerr s) (werr s) (readable s) (bufptr s) (room s) (rd s) (wd s) (accepts s) b (lerr s) (lrd s) (ltok s) (o_die s) (o_rerr s) (o_werr s) (o_ldie s) (o_lerr s).
-Definition set_lerr b s := mkShared (rtok s) (wtok s) (die s) (rerr s) (werr s) (readable s) (bufptr s) (room s) (rd s) (wd s) (accepts s) (ldie s) b (lrd s) (ltok s) (o_die s) (o_rerr s) (o_werr s) (o_ldie s) (o_lerr s).
-Definition set_lrd v s := mkShared (rtok s) (wtok s) (die s) (rerr s) (werr s) (readable s) (bufptr s) (room s) (rd s) (wd s) (accepts s) (ldie s) (lerr s) v (ltok s) (o_die s) (o_rerr s) (o_werr s) (o_ldie s) (o_lerr s).
-Definition set_ltok b s := mkShared (rtok s) (wtok s) (die s) (rerr s) (werr s) (readable s) (bufptr s) (room s) (rd s) (wd s) (accepts s) (ldie s) (lerr s) (lrd s) b (o_die s) (o_rerr s) (o_werr s) (o_ldie s) (o_lerr s).
+Definition set_rtok b s := mkShared b (wtok s) (die s) (rerr s) (werr s) (readable s) (bufptr s) (room s) (rd s) (wd s) (accepts s) (ldie s) (lerr s) (lrd s) (o_die s) (o_rerr s) (o_werr s) (o_ldie s) (o_lerr s).
+Definition set_wtok b s := mkShared (rtok s) b (die s) (rerr s) (werr s) (readable s) (bufptr s) (room s) (rd s) (wd s) (accepts s) (ldie s) (lerr s) (lrd s) (o_die s) (o_rerr s) (o_werr s) (o_ldie s) (o_lerr s).
+Definition set_die b s := mkShared (rtok s) (wtok s) b (rerr s) (werr s) (readable s) (bufptr s) (room s) (rd s) (wd s) (accepts s) (ldie s) (lerr s) (lrd s) (o_die s) (o_rerr s) (o_werr s) (o_ldie s) (o_lerr s).
+Definition set_rerr b s := mkShared (rtok s) (wtok s) (die s) b (werr s) (readable s) (bufptr s) (room s) (rd s) (wd s) (accepts s) (ldie s) (lerr s) (lrd s) (o_die s) (o_rerr s) (o_werr s) (o_ldie s) (o_lerr s).
+Definition set_werr b s := mkShared (rtok s) (wtok s) (die s) (rerr s) b (readable s) (bufptr s) (room s) (rd s) (wd s) (accepts s) (ldie s) (lerr s) (lrd s) (o_die s) (o_rerr s) (o_werr s) (o_ldie s) (o_lerr s).
+Definition set_readable n s := mkShared (rtok s) (wtok s) (die s) (rerr s) (werr s) n (bufptr s) (room s) (rd s) (wd s) (accepts s) (ldie s) (lerr s) (lrd s) (o_die s) (o_rerr s) (o_werr s) (o_ldie s) (o_lerr s).
+Definition set_bufptr b s := mkShared (rtok s) (wtok s) (die s) (rerr s) (werr s) (readable s) b (room s) (rd s) (wd s) (accepts s) (ldie s) (lerr s) (lrd s) (o_die s) (o_rerr s) (o_werr s) (o_ldie s) (o_lerr s).
+Definition set_room b s := mkShared (rtok s) (wtok s) (die s) (rerr s) (werr s) (readable s) (bufptr s) b (rd s) (wd s) (accepts s) (ldie s) (lerr s) (lrd s) (o_die s) (o_rerr s) (o_werr s) (o_ldie s) (o_lerr s).
+Definition set_rd v s := mkShared (rtok s) (wtok s) (die s) (rerr s) (werr s) (readable s) (bufptr s) (room s) v (wd s) (accepts s) (ldie s) (lerr s) (lrd s) (o_die s) (o_rerr s) (o_werr s) (o_ldie s) (o_lerr s).
+Definition set_wd v s := mkShared (rtok s) (wtok s) (die s) (rerr s) (werr s) (readable s) (bufptr s) (room s) (rd s) v (accepts s) (ldie s) (lerr s) (lrd s) (o_die s) (o_rerr s) (o_werr s) (o_ldie s) (o_lerr s).
+Definition set_accepts n s := mkShared (rtok s) (wtok s) (die s) (rerr s) (werr s) (readable s) (bufptr s) (room s) (rd s) (wd s) n (ldie s) (lerr s) (lrd s) (o_die s) (o_rerr s) (o_werr s) (o_ldie s) (o_lerr s).
+Definition set_ldie b s := mkShared (rtok s) (wtok s) (die s) (rerr s) (werr s) (readable s) (bufptr s) (room s) (rd s) (wd s) (accepts s) b (lerr s) (lrd s) (o_die s) (o_rerr s) (o_werr s) (o_ldie s) (o_lerr s).
+Definition set_lerr b s := mkShared (rtok s) (wtok s) (die s) (rerr s) (werr s) (readable s) (bufptr s) (room s) (rd s) (wd s) (accepts s) (ldie s) b (lrd s) (o_die s) (o_rerr s) (o_werr s) (o_ldie s) (o_lerr s).
+Definition set_lrd v s := mkShared (rtok s) (wtok s) (die s) (rerr s) (werr s) (readable s) (bufptr s) (room s) (rd s) (wd s) (accepts s) (ldie s) (lerr s) v (o_die s) (o_rerr s) (o_werr s) (o_ldie s) (o_lerr s).
 
 Definition once_done (o : once) (s : shared) : bool :=
   match o with ODie => o_die s | ORErr => o_rerr s | OWErr => o_werr s | OLDie => o_ldie s | OLErr => o_lerr s end.
 Definition set_once (o : once) (s : shared) : shared :=
   match o with
-  | ODie => mkShared (rtok s) (wtok s) (die s) (rerr s) (werr s) (readable s) (bufptr s) (room s) (rd s) (wd s) (accepts s) (ldie s) (lerr s) (lrd s) (ltok s) true (o_rerr s) (o_werr s) (o_ldie s) (o_lerr s)
-  | ORErr => mkShared (rtok s) (wtok s) (die s) (rerr s) (werr s) (readable s) (bufptr s) (room s) (rd s) (wd s) (accepts s) (ldie s) (lerr s) (lrd s) (ltok s) (o_die s) true (o_werr s) (o_ldie s) (o_lerr s)
-  | OWErr => mkShared (rtok s) (wtok s) (die s) (rerr s) (werr s) (readable s) (bufptr s) (room s) (rd s) (wd s) (accepts s) (ldie s) (lerr s) (lrd s) (ltok s) (o_die s) (o_rerr s) true (o_ldie s) (o_lerr s)
-  | OLDie => mkShared (rtok s) (wtok s) (die s) (rerr s) (werr s) (readable s) (bufptr s) (room s) (rd s) (wd s) (accepts s) (ldie s) (lerr s) (lrd s) (ltok s) (o_die s) (o_rerr s) (o_werr s) true (o_lerr s)
-  | OLErr => mkShared (rtok s) (wtok s) (die s) (rerr s) (werr s) (readable s) (bufptr s) (room s) (rd s) (wd s) (accepts s) (ldie s) (lerr s) (lrd s) (ltok s) (o_die s) (o_rerr s) (o_werr s) (o_ldie s) true
+  | ODie => mkShared (rtok s) (wtok s) (die s) (rerr s) (werr s) (readable s) (bufptr s) (room s) (rd s) (wd s) (accepts s) (ldie s) (lerr s) (lrd s) true (o_rerr s) (o_werr s) (o_ldie s) (o_lerr s)
+  | ORErr => mkShared (rtok s) (wtok s) (die s) (rerr s) (werr s) (readable s) (bufptr s) (room s) (rd s) (wd s) (accepts s) (ldie s) (lerr s) (lrd s) (o_die s) true (o_werr s) (o_ldie s) (o_lerr s)
+  | OWErr => mkShared (rtok s) (wtok s) (die s) (rerr s) (werr s) (readable s) (bufptr s) (room s) (rd s) (wd s) (accepts s) (ldie s) (lerr s) (lrd s) (o_die s) (o_rerr s) true (o_ldie s) (o_lerr s)
+  | OLDie => mkShared (rtok s) (wtok s) (die s) (rerr s) (werr s) (readable s) (bufptr s) (room s) (rd s) (wd s) (accepts s) (ldie s) (lerr s) (lrd s) (o_die s) (o_rerr s) (o_werr s) true (o_lerr s)
+  | OLErr => mkShared (rtok s) (wtok s) (die s) (rerr s) (werr s) (readable s) (bufptr s) (room s) (rd s) (wd s) (accepts s) (ldie s) (lerr s) (lrd s) (o_die s) (o_rerr s) (o_werr s) (o_ldie s) true
   end.
 
 Definition dl (w : which) (s : shared) : dlv := match w with RD => rd s | WD => wd s | LRD => lrd s end.
@@ -133,37 +142,45 @@ Record frame := mkFrame {
   f_argk : nat;             (* messages carried by the datagram handed to kcpInput *)
   f_argo : bool;            (* that datagram acknowledges enough to open the window *)
   f_stored : list which;    (* deadlines stored by this activation *)
+  f_bcast : list which;     (* deadline signals broadcast by this activation *)
   f_bad : nat               (* non-zero: the code did something the model has no semantics for *)
 }.
 
-Definition fr_loc l f := mkFrame l (f_once f) (f_held f) (f_dunlock f) (f_legit f) (f_argd f) (f_argk f) (f_argo f) (f_stored f) (f_bad f).
-Definition fr_once b f := mkFrame (f_loc f) b (f_held f) (f_dunlock f) (f_legit f) (f_argd f) (f_argk f) (f_argo f) (f_stored f) (f_bad f).
-Definition fr_held b f := mkFrame (f_loc f) (f_once f) b (f_dunlock f) (f_legit f) (f_argd f) (f_argk f) (f_argo f) (f_stored f) (f_bad f).
-Definition fr_dunlock b f := mkFrame (f_loc f) (f_once f) (f_held f) b (f_legit f) (f_argd f) (f_argk f) (f_argo f) (f_stored f) (f_bad f).
-Definition fr_legit b f := mkFrame (f_loc f) (f_once f) (f_held f) (f_dunlock f) b (f_argd f) (f_argk f) (f_argo f) (f_stored f) (f_bad f).
-Definition fr_noinput f := mkFrame (f_loc f) (f_once f) (f_held f) (f_dunlock f) (f_legit f) (f_argd f) 0 false (f_stored f) (f_bad f).
-Definition fr_stored w f := mkFrame (f_loc f) (f_once f) (f_held f) (f_dunlock f) (f_legit f) (f_argd f) (f_argk f) (f_argo f) (w :: f_stored f) (f_bad f).
-Definition fr_bad n f := mkFrame (f_loc f) (f_once f) (f_held f) (f_dunlock f) (f_legit f) (f_argd f) (f_argk f) (f_argo f) (f_stored f) n.
+Definition fr_loc l f := mkFrame l (f_once f) (f_held f) (f_dunlock f) (f_legit f) (f_argd f) (f_argk f) (f_argo f) (f_stored f) (f_bcast f) (f_bad f).
+Definition fr_once b f := mkFrame (f_loc f) b (f_held f) (f_dunlock f) (f_legit f) (f_argd f) (f_argk f) (f_argo f) (f_stored f) (f_bcast f) (f_bad f).
+Definition fr_held b f := mkFrame (f_loc f) (f_once f) b (f_dunlock f) (f_legit f) (f_argd f) (f_argk f) (f_argo f) (f_stored f) (f_bcast f) (f_bad f).
+Definition fr_dunlock b f := mkFrame (f_loc f) (f_once f) (f_held f) b (f_legit f) (f_argd f) (f_argk f) (f_argo f) (f_stored f) (f_bcast f) (f_bad f).
+Definition fr_legit b f := mkFrame (f_loc f) (f_once f) (f_held f) (f_dunlock f) b (f_argd f) (f_argk f) (f_argo f) (f_stored f) (f_bcast f) (f_bad f).
+Definition fr_noinput f := mkFrame (f_loc f) (f_once f) (f_held f) (f_dunlock f) (f_legit f) (f_argd f) 0 false (f_stored f) (f_bcast f) (f_bad f).
+Definition fr_stored w f := mkFrame (f_loc f) (f_once f) (f_held f) (f_dunlock f) (f_legit f) (f_argd f) (f_argk f) (f_argo f) (w :: f_stored f) (f_bcast f) (f_bad f).
+Definition fr_bcast w f := mkFrame (f_loc f) (f_once f) (f_held f) (f_dunlock f) (f_legit f) (f_argd f) (f_argk f) (f_argo f) (f_stored f) (w :: f_bcast f) (f_bad f).
+Definition fr_bad n f := mkFrame (f_loc f) (f_once f) (f_held f) (f_dunlock f) (f_legit f) (f_argd f) (f_argk f) (f_argo f) (f_stored f) (f_bcast f) n.
 
-Definition fr_tm t f := fr_loc (mkLoc t (ch (f_loc f)) (cv (f_loc f))) f.
-Definition fr_ch c f := fr_loc (mkLoc (tm (f_loc f)) c (cv (f_loc f))) f.
-Definition fr_cv b f := fr_loc (mkLoc (tm (f_loc f)) (ch (f_loc f)) b) f.
+Definition fr_tm t f := fr_loc (mkLoc t (ch (f_loc f)) (cv (f_loc f)) (wt (f_loc f))) f.
+Definition fr_ch c f := fr_loc (mkLoc (tm (f_loc f)) c (cv (f_loc f)) (wt (f_loc f))) f.
+Definition fr_cv b f := fr_loc (mkLoc (tm (f_loc f)) (ch (f_loc f)) b (wt (f_loc f))) f.
+Definition fr_wt x f := fr_loc (mkLoc (tm (f_loc f)) (ch (f_loc f)) (cv (f_loc f)) x) f.
 
 Definition frame0 (l : loc) (d : dlv) (k : nat) (o : bool) : frame :=
-  mkFrame l false false false true d k o [] 0.
+  mkFrame l false false false true d k o [] [] 0.
 
 (* error codes (f_bad / PFail / bad) *)
 Definition E_FUEL := 1.        Definition E_ASSIGN := 2.      Definition E_LABEL := 3.
 Definition E_BLOCK_ATOMIC := 4. Definition E_RELOCK := 5.      Definition E_UNLOCK := 6.
 Definition E_RET_LOCKED := 7.  Definition E_NIL_TIMER := 8.   Definition E_RECV_EMPTY := 9.
 Definition E_DOUBLE_CLOSE := 10. Definition E_YIELD_LOCKED := 11. Definition E_ENV_YIELD := 12.
-Definition E_NO_POINT := 13.
+Definition E_NO_POINT := 13.   Definition E_THREAD_BCAST := 14.
 
 (* ------------------------------------------------------------------ timers *)
 Section Sem.
 Variable async : bool.                      (* pre-1.23 timer channels *)
 Variable cap : nat.                         (* saturation bound of the counters *)
 Variable prog : proc -> list stmt.          (* the skeletons *)
+Variable gap : bool.                        (* the yield point AFTER `changed := X.watch()` exists.  false only in
+                                               systems whose environment never broadcasts (no deadline setter):
+                                               there the generation never moves, watch() commutes with every
+                                               other step and the point would only multiply the states; those
+                                               systems check `no caller ever finds its generation moved` *)
 Variable ghost : bool.                      (* track the g_closed / g_data history flags *)
 
 Definition is_nil (t : tmr) : bool := match t with TNil => true | _ => false end.
@@ -238,6 +255,7 @@ Definition exec_prim (p : prim) (f : frame) (s : shared) : list (frame * shared)
       let s2 := if f_argo f then set_room true s1 else s1 in
       [(fr_noinput f, s2)]
   | PStore w => [(fr_stored w f, set_dl w (f_argd f) s)]
+  | PBroadcast w => [(fr_bcast w f, s)]      (* applied to the callers by env_call *)
   | PCloseDie => [(close_flag (die s) f, set_die true s)]
   | PCloseRErr => [(close_flag (rerr s) f, set_rerr true s)]
   | PCloseWErr => [(close_flag (werr s) f, set_werr true s)]
@@ -259,8 +277,7 @@ Definition ready (op : chanop) (f : frame) (s : shared) : bool :=
   | RcvLDie => ldie s
   | SndReadEvent => negb (rtok s)
   | SndWriteEvent => negb (wtok s)
-  | RcvLEvent => ltok s
-  | SndLEvent => negb (ltok s)
+  | RcvChanged => match wt (f_loc f) with WMoved _ => true | _ => false end
   end.
 
 Definition fire (op : chanop) (f : frame) (s : shared) : list (frame * shared) :=
@@ -273,8 +290,7 @@ Definition fire (op : chanop) (f : frame) (s : shared) : list (frame * shared) :
   | RcvAccept => map (fun n => (f, set_accepts n s)) (sat_dec cap (accepts s))
   | SndReadEvent => [(f, set_rtok true s)]
   | SndWriteEvent => [(f, set_wtok true s)]
-  | RcvLEvent => [(f, set_ltok false s)]
-  | SndLEvent => [(f, set_ltok true s)]
+  | RcvChanged => [(f, s)]      (* a closed channel stays ready until the next watch() *)
   end.
 
 Definition uses_timer_c (cases : list (chanop * list stmt)) : bool :=
@@ -295,6 +311,10 @@ Fixpoint find_point (fuel : nat) (id : nat) (ss k : list stmt) : option (list st
       let here :=
         match st with
         | SLabel i | SLock i => if Nat.eqb i id then Some (st :: k') else None
+        | SWatch i _ =>
+            (* two yield points: i = before the watch, S i = after it (the watch is done) *)
+            if Nat.eqb i id then Some (st :: k')
+            else if Nat.eqb (S i) id then Some (SCall PNop :: k') else None
         | SSelect i cases d =>
             if Nat.eqb i id then Some (st :: k')
             else orelse
@@ -361,7 +381,12 @@ Fixpoint run (fuel : nat) (me : proc) (atomic first : bool) (k : list stmt) (f :
                    (eval_cond c f s)
       | SLoop body => run n me atomic false (body ++ st :: k') f s
       | SLabel id =>
-          if atomic || first then run n me atomic false k' f s else yield id f s
+          (* a label directly followed by `changed := X.watch()`: the label's yield point and the
+             one before the watch are the same point (nothing lies between them), so a call
+             resumed at the label goes on into the watch *)
+          if atomic then run n me atomic false k' f s
+          else if first then run n me atomic (match k' with SWatch _ _ :: _ => true | _ => false end) k' f s
+          else yield id f s
       | SGoto id =>
           match cont_at me id with
           | Some k2 => run n me atomic false k2 f s
@@ -384,6 +409,16 @@ Fixpoint run (fuel : nat) (me : proc) (atomic first : bool) (k : list stmt) (f :
       | SLock id =>
           if f_held f then [RFail E_RELOCK]
           else if atomic || first then run n me atomic false k' (fr_held true f) s
+          else yield id f s
+      | SWatch id w =>
+          (* like s.mu.Lock() the call may be preempted BEFORE it takes the signal's mutex (yield
+             point id); once the generation is recorded it may be preempted again before its next
+             statement (yield point S id).  Either way a setter can run between the watch and
+             the load of the deadline, whichever comes first in the source. *)
+          if atomic then run n me atomic false k' (fr_wt (WSeen w) f) s
+          else if first then
+            (if gap then yield (S id) (fr_wt (WSeen w) f) s
+             else run n me atomic false k' (fr_wt (WSeen w) f) s)
           else yield id f s
       | SUnlock =>
           if f_held f then run n me atomic false k' (fr_held false f) s else [RFail E_UNLOCK]
@@ -418,9 +453,14 @@ Definition has_data (s : shared) : bool := bufptr s || negb (Nat.eqb (readable s
 Definition res_thread (t : thread) (entry : bool) (s0 : shared) (r : res) : (thread * shared * nat) :=
   let gc := if entry then ghost && closed_for (fn t) s0 else g_closed t in
   let gd := if entry then ghost && has_data s0 else g_data t in
+  let nob (f : frame) (x : thread * shared * nat) : thread * shared * nat :=
+    match f_bcast f with
+    | [] => x
+    | _ => (mkThread (fn t) (PFail E_THREAD_BCAST) (lc t) gc gd, s0, E_THREAD_BCAST)
+    end in
   match r with
-  | RYield id f s => (mkThread (fn t) (PAt id) (f_loc f) gc gd, s, 0)
-  | RDone r f s => (mkThread (fn t) (PDone r (f_legit f)) (f_loc f) gc gd, s, 0)
+  | RYield id f s => nob f (mkThread (fn t) (PAt id) (f_loc f) gc gd, s, 0)
+  | RDone r f s => nob f (mkThread (fn t) (PDone r (f_legit f)) (f_loc f) gc gd, s, 0)
   | RFail c => (mkThread (fn t) (PFail c) (lc t) gc gd, s0, c)
   end.
 
@@ -448,12 +488,22 @@ Definition stale_timer (ws : list which) (t : thread) : thread :=
   match tm (lc t) with
   | TRun w due true =>
       if existsb (which_beq w) ws
-      then mkThread (fn t) (pc t) (mkLoc (TRun w due false) (ch (lc t)) (cv (lc t))) (g_closed t) (g_data t)
+      then mkThread (fn t) (pc t) (mkLoc (TRun w due false) (ch (lc t)) (cv (lc t)) (wt (lc t))) (g_closed t) (g_data t)
       else t
   | _ => t
   end.
 
-Definition no_loc : loc := mkLoc TNil CEmpty false.
+(* a deadline signal was broadcast: the generation every caller watched is no longer current *)
+Definition moved_thread (ws : list which) (t : thread) : thread :=
+  match wt (lc t) with
+  | WSeen w =>
+      if existsb (which_beq w) ws
+      then mkThread (fn t) (pc t) (mkLoc (tm (lc t)) (ch (lc t)) (cv (lc t)) (WMoved w)) (g_closed t) (g_data t)
+      else t
+  | _ => t
+  end.
+
+Definition no_loc : loc := mkLoc TNil CEmpty false WNone.
 
 (* one atomic environment call of the generated procedure g.  The arguments (k, o) describe the
    datagram handed to kcpInput (it carries k new messages / it opens the window): executions
@@ -464,7 +514,7 @@ Definition env_call (g : proc) (d : dlv) (k : nat) (o : bool) (st : state) : lis
          match r with
          | RDone _ f s =>
              if Nat.eqb (f_argk f) 0 && negb (f_argo f)
-             then [mkState s (map (stale_timer (f_stored f)) (ths st)) (bad st)]
+             then [mkState s (map (moved_thread (f_bcast f)) (map (stale_timer (f_stored f)) (ths st))) (bad st)]
              else []
          | RYield _ _ _ => [mkState (sh st) (ths st) E_ENV_YIELD]
          | RFail c => [mkState (sh st) (ths st) c]
@@ -476,7 +526,7 @@ Definition map_timer (g : tmr -> chv -> option (tmr * chv)) (i : nat) (st : stat
   | Some t =>
       match g (tm (lc t)) (ch (lc t)) with
       | Some (t', c') =>
-          [mkState (sh st) (upd_nth i (mkThread (fn t) (pc t) (mkLoc t' c' (cv (lc t))) (g_closed t) (g_data t)) (ths st)) (bad st)]
+          [mkState (sh st) (upd_nth i (mkThread (fn t) (pc t) (mkLoc t' c' (cv (lc t)) (wt (lc t))) (g_closed t) (g_data t)) (ths st)) (bad st)]
       | None => []
       end
   | None => []
@@ -486,7 +536,7 @@ Definition tick_thread (w : which) (t : thread) : thread :=
   match tm (lc t) with
   | TRun w' false true =>
       if which_beq w w'
-      then mkThread (fn t) (pc t) (mkLoc (TRun w' true true) (ch (lc t)) (cv (lc t))) (g_closed t) (g_data t)
+      then mkThread (fn t) (pc t) (mkLoc (TRun w' true true) (ch (lc t)) (cv (lc t)) (wt (lc t))) (g_closed t) (g_data t)
       else t
   | _ => t
   end.
@@ -523,7 +573,6 @@ Definition env_step (l : label) (st : state) : list state :=
                             | _ => None end) i st
   | LStealR => if rtok s then [with_sh st (set_rtok false s)] else []
   | LStealW => if wtok s then [with_sh st (set_wtok false s)] else []
-  | LStealL => if ltok s then [with_sh st (set_ltok false s)] else []
   | LStealAccept => map (fun n => with_sh st (set_accepts n s)) (sat_dec cap (accepts s))
   | LTakeData => map (fun n => with_sh st (set_readable n s)) (sat_dec cap (readable s))
   | LTakeBuf => if bufptr s then [with_sh st (set_bufptr false s)] else []
@@ -576,10 +625,12 @@ Definition ppoint (q : point) (p : positive) : positive :=
   | PDone r l => xO (xI (pb l (pnat 4 (nret r) p)))
   | PFail c => xI (xI (pnat 5 c p))
   end.
+Definition pwt (x : wst) (p : positive) : positive :=
+  match x with WNone => xO (xO p) | WSeen _ => xI (xO p) | WMoved _ => xO (xI p) end.
 Definition pthread (t : thread) (p : positive) : positive :=
-  ppoint (pc t) (ptm (tm (lc t)) (pch (ch (lc t)) (pb (cv (lc t)) (pb (g_closed t) (pb (g_data t) p))))).
+  ppoint (pc t) (ptm (tm (lc t)) (pch (ch (lc t)) (pb (cv (lc t)) (pwt (wt (lc t)) (pb (g_closed t) (pb (g_data t) p)))))).
 Definition pshared (s : shared) (p : positive) : positive :=
   pb (rtok s) (pb (wtok s) (pb (die s) (pb (rerr s) (pb (werr s) (pnat 2 (readable s) (pb (bufptr s)
-  (pb (room s) (pdl (rd s) (pdl (wd s) (pnat 2 (accepts s) (pb (ldie s) (pb (lerr s) (pb (ltok s) (pdl (lrd s) p)))))))))))))).
+  (pb (room s) (pdl (rd s) (pdl (wd s) (pnat 2 (accepts s) (pb (ldie s) (pb (lerr s) (pdl (lrd s) p))))))))))))).
 Definition key (st : state) : positive :=
   pshared (sh st) (fold_right pthread xH (ths st)).
